@@ -1,18 +1,42 @@
-import XModel.RefsTable
+import XModel.RefsLift
 /-!
 # C05 — reported dependencies contain every location an expression reads
 -/
 namespace Properties.C05
-open RefsTable
+open RefsTable RefsLift
 
 /-- for every tree built from (class, slot) pairs the table covers, the reported dependencies are
     exactly the refs that occur anywhere inside it -/
 theorem C05_deps_exact (rows : List DepRow) (n : DNode) (h : wellSlotted rows n = true) :
     depsOf rows n = leafs n := deps_exact rows n h
 
-/-- a valid table covers every pair it lists, and returns a set for each -/
+/-- PROJECTION of the validity obligation (no lift): this restates `Full.ValidDeps`: every (class, slot)
+    row of a valid table has `covered` and `returnsSet`.  What coverage means for the values of
+    expressions is `C05_value_depends_only_on_reported`. -/
 theorem C05_valid_covers (f : Full) (h : f.ValidDeps = true) (r : DepRow) (hr : r ∈ f.deps) :
     (r.covered && r.returnsSet) = true := covered_of_valid f h r hr
+
+/-- the semantic statement: for any interpretation `I` of the node classes and every tree over covered
+    (class, slot) pairs, two environments that agree on the reported dependencies give the same value -/
+theorem C05_value_depends_only_on_reported {V : Type} (rows : List DepRow) (I : DSem V) (n : DNode)
+    (hw : wellSlotted rows n = true) (e1 e2 : Nat → V) (h : ∀ id ∈ depsOf rows n, e1 id = e2 id) :
+    evalD I e1 n = evalD I e2 n := value_depends_only_on_reported rows I n hw e1 e2 h
+
+/-- as the property is worded: whenever changing a location changes the value, that location is reported -/
+theorem C05_changed_location_reported {V : Type} (rows : List DepRow) (I : DSem V) (n : DNode)
+    (hw : wellSlotted rows n = true) (env : Nat → V) (k : Nat) (v : V)
+    (hne : evalD I (fun i => if i = k then v else env i) n ≠ evalD I env n) : k ∈ depsOf rows n :=
+  changed_location_reported rows I n hw env k v hne
+
+/-- non-vacuity: changing location 2 changes the value of a tree over covered slots, and 2 is reported -/
+example : wellSlotted depRowsOk depNode = true ∧
+    evalD sumSem (fun i => if i = 2 then 10 else 1) depNode ≠ evalD sumSem (fun _ => 1) depNode ∧
+    2 ∈ depsOf depRowsOk depNode := by decide
+/-- and `wellSlotted` is needed: with the `param` slot uncovered (the shape of D6) the same change of value
+    happens while location 2 is not reported -/
+example : wellSlotted depRowsD6 depNode = false ∧
+    evalD sumSem (fun i => if i = 2 then 10 else 1) depNode ≠ evalD sumSem (fun _ => 1) depNode ∧
+    2 ∉ depsOf depRowsD6 depNode := by decide
 
 /-- non-vacuity: a call node with a ref in a keyword slot -/
 example : depsOf [⟨"CallRef", "kwarg", true, true⟩, ⟨"CallRef", "func", true, true⟩]
